@@ -95,7 +95,14 @@ func c10Isolation(c *Chooser, env *Env, defective, faults bool) *Outcome {
 	dh := diskHash(w)
 
 	fpBefore := PackageFingerprints()
-	multi := RunLint(w, c, RunOpts{KeepTrace: env.KeepTrace})
+	ro := RunOpts{KeepTrace: env.KeepTrace}
+	if c.Weighted("world.secondcall", 1, 5) {
+		// the same invocation as the second call on one Linter instance: "once per run" and
+		// isolation hold for every run of a long-lived Linter, not only for its first
+		ro.Repeat, ro.ReuseLinter = 2, true
+		o.probe("second_call_on_one_linter", 1)
+	}
+	multi := RunLint(w, c, ro)
 	fpAfter := PackageFingerprints()
 	o.addRun(multi.K)
 	if env.KeepTrace {
